@@ -143,6 +143,7 @@ def flavours():
     out.append(('tls13-dhe', dict(ver='tls13', kex='dhe_rsa', groups=['ffdhe2048'])))
     out.append(('tls13-ecdsa', dict(ver='tls13', kex='ecdhe_ecdsa', cred='ecdsa')))
     out.append(('tls13-clientauth', dict(ver='tls13', kex='ecdhe_rsa', clientauth=True)))
+    out.append(('tls13-pha', dict(ver='tls13', kex='ecdhe_rsa', pha=True)))     # client ready for post-handshake auth
     out.append(('tls13-ticket', dict(ver='tls13', kex='ecdhe_rsa', tickets=True)))
     out.append(('tls13-ticket-resume', dict(ver='tls13', kex='ecdhe_rsa', tickets=True, resume=True)))
     return out
@@ -167,7 +168,12 @@ def _settings(fl, server):
         kw['ticketKeys'] = [TICKET_KEY]
     if fl['ver'] == 'ssl3':
         kw['cipherNames'] = ['aes128', 'aes256', '3des']
+    kw['heartbeat_response_callback'] = _hb_callback     # both sides may send heartbeat requests
     return settings(minv=v, maxv=v, **kw)
+
+
+def _hb_callback(msg):
+    return None
 
 
 class Endpoints(object):
@@ -197,10 +203,11 @@ class Endpoints(object):
         else:
             chain, key = creds(fl.get('cred', 'rsa'))
             skw['certChain'], skw['privateKey'] = chain, key
-            if fl.get('clientauth'):
+            if fl.get('clientauth') or fl.get('pha'):
                 cc, ck = creds('client-rsa')
                 ckw['certChain'], ckw['privateKey'] = cc, ck
-                skw['reqCert'] = True
+                if fl.get('clientauth'):
+                    skw['reqCert'] = True
             cg = self.client.handshakeClientCert(async_=True, **ckw)
         sg = self.server.handshakeServerAsync(**skw)
         return cg, sg
@@ -280,9 +287,18 @@ def run_one(g, sock, max_steps=100000):
 
 # ------------------------------------------------------------------------------------------
 # peer send log -> model items
-def parse_items(ct, payload, tls13):
-    """one record sent by the peer -> list of model items (as text-free tuples)"""
+def parse_items(ct, payload, tls13, post=None):
+    """one record sent by the peer -> list of model items (as text-free tuples).
+    post: None while the handshake runs; afterwards dict(hb=<the endpoint under test answers heartbeat
+    requests>, pha=<it is a TLS 1.3 client prepared for post-handshake authentication>)"""
     payload = bytes(payload)
+    if post is not None:
+        if ct == ContentType.heartbeat and payload[:1] == b'\x01':
+            return [('ctl', 'HbReq %s' % ('true' if post['hb'] else 'false'))]
+        if ct == ContentType.handshake and tls13 and payload[:1] == b'\x18' and len(payload) == 5:
+            return [('ctl', 'KuReq' if payload[4] == 1 else 'KuNoReq')]
+        if ct == ContentType.handshake and tls13 and payload[:1] == b'\x0d':
+            return [('ctl', 'PhaReq %s' % ('true' if post['pha'] else 'false'))]
     if ct == ContentType.application_data:
         return [('data', payload)]
     if ct == ContentType.alert:
@@ -436,6 +452,8 @@ def item_lit(it):
         return '(IData [%s])' % ';'.join(str(b) for b in it[1])
     if it[0] == 'alert':
         return '(IAlert %d %d)' % (it[1], it[2])
+    if it[0] == 'ctl':
+        return '(ICtl (%s))' % it[1]
     return '(IHs %s)' % ('true' if it[1] else 'false')
 
 
@@ -498,6 +516,10 @@ def drain_wire(peer, psock):
             return out
         hdr, p = rec
         pl = bytes(p.bytes[p.index:])
+        if hdr.type == ContentType.handshake and pl[:1] == b'\x18' and peer.version == (3, 4) and peer.session is not None:
+            # the endpoint under test updated its write keys: follow, as readAsync would
+            peer.session.cl_app_secret, peer.session.sr_app_secret = peer._recordLayer.calcTLS1_3KeyUpdate_sender(
+                peer.session.cipherSuite, peer.session.cl_app_secret, peer.session.sr_app_secret)
         if hdr.type == ContentType.application_data:
             out.append(('data', pl))
         elif hdr.type == ContentType.alert and len(pl) >= 2:
@@ -864,11 +886,33 @@ def _peer_send(P, psock, what):
         g = P._sendMsg(Message(ContentType.handshake, bytearray([14, 0, 0, 0])), update_hashes=False)
     elif what[0] == 'pempty':
         g = P._sendMsg(ApplicationData().create(bytearray(0)), randomizeFirstBlock=False)
+    elif what[0] == 'pku':        # TLS 1.3 KeyUpdate, update_requested or not
+        from tlslite.constants import KeyUpdateMessageType
+        g = P.send_keyupdate_request(KeyUpdateMessageType.update_requested if what[1]
+                                     else KeyUpdateMessageType.update_not_requested)
+    elif what[0] == 'phb':        # heartbeat request (16 bytes of padding: well-formed)
+        g = P.write_heartbeat(bytearray(b'ping'), 16)
+    elif what[0] == 'ppha':       # TLS 1.3 server asks for post-handshake authentication
+        g = P.request_post_handshake_auth()
     else:
         raise ValueError(what)
     r = run_one(g, psock)
     if r[0] != 'ok':
         raise RuntimeError('peer could not send %r: %r' % (what, r))
+
+
+CONTROL_OPS = ('keyupdate', 'pha', 'heartbeat', 'pku', 'phb', 'ppha')
+
+
+def peer_can(P, k):
+    """can the (live) peer perform this post-handshake operation on this connection"""
+    if k == 'pku':
+        return P.version == (3, 4)
+    if k == 'ppha':
+        return P.version == (3, 4) and not P._client and bool(P._pha_supported)
+    if k == 'phb':
+        return bool(P.heartbeat_supported and P.heartbeat_can_send)
+    return True
 
 
 class _NoSock(object):
@@ -892,6 +936,10 @@ def run_data_case(case, blocking=False):
     Returns dict(lit, viol, outs, ...)."""
     fl = FLAVOURS[case['fl']]
     side = case['side']
+    if any(op[0] in CONTROL_OPS for op in case['script']) and case.get('recsz', 16384) < 64:
+        # KeyUpdate / CertificateRequest / heartbeat messages (sent by the call or as an answer from
+        # inside read) are one record each in the model: no tiny recordSize in such scripts
+        case = dict(case, recsz=16384)
     ref = reference_script(case['fl'], side)
     ep, cg, sg = make_case_endpoints(fl, case['seed'])
     if side == 'client':
@@ -936,18 +984,31 @@ def run_data_case(case, blocking=False):
                 tx_budget[0][0] -= 1
         return orig_send(data)
     asock.send = send
+    # "orderly close by the peer": everything that arrived up to and including the first
+    # close_notify is application data (or TLS 1.3 tickets) and the transport had not failed before
+    clean_prefix = all(i[0] == 'data' or i == ('hs', True) for i in items[used:])
+    cn_arrived = False
     for op in case['script']:
         k = op[0]
-        if k in ('pdata', 'palert', 'pjunk', 'pempty'):
+        if k in ('pku', 'phb', 'ppha') and not peer_can(P, k):
+            continue              # not applicable to this flavour / side: the op is skipped
+        if k in ('pdata', 'palert', 'pjunk', 'pempty', 'pku', 'phb', 'ppha'):
             live = asock.dead_rx is None and not asock.closed
             _peer_send(P, psock, op)
             new = plog.records[n_logged:]
             n_logged = len(plog.records)
+            post = dict(hb=bool(A.heartbeat_supported and A.heartbeat_can_receive),
+                        pha=bool(tls13 and side == 'client' and A._client_keypair))
             for ct, pl in new:
-                for it in parse_items(ct, pl, tls13):
+                for it in parse_items(ct, pl, tls13, post):
                     events.append('NIn %s' % item_lit(it))
                     if it[0] == 'alert' and live:
                         sent_alerts.append((it[1], it[2]))
+                    if live and not cn_arrived:
+                        if it[0] == 'alert' and it[2] == 0:
+                            cn_arrived = True
+                        elif not (it[0] == 'data' or it == ('hs', True)):
+                            clean_prefix = False
         elif k == 'trunc':
             before = len(asock.inbuf)
             live = asock.dead_rx is None and not asock.closed
@@ -960,13 +1021,16 @@ def run_data_case(case, blocking=False):
             asock.kill_rx('eof')
             events.append('NEof')
             eof_arrived = True
+            clean_prefix = clean_prefix and cn_arrived
         elif k == 'eof':
             asock.kill_rx('eof')
             events.append('NEof')
             eof_arrived = True
+            clean_prefix = clean_prefix and cn_arrived
         elif k == 'reset':
             asock.kill_rx(op[1])
             events.append('NReset %d' % op[1])
+            clean_prefix = clean_prefix and cn_arrived
         elif k == 'sendbreak':
             if tx_budget[0] is None:
                 tx_budget[0] = [op[1], op[2]]
@@ -980,9 +1044,28 @@ def run_data_case(case, blocking=False):
         elif k == 'makefile':
             files.append(A.makefile('rb'))
             events.append('UMakefile')
-        elif k in ('read', 'write', 'close'):
+        elif k in ('read', 'write', 'close', 'keyupdate', 'pha', 'heartbeat'):
             closed_before = A.closed
-            if k == 'read':
+            buffered = bytes(A.sock._read_buffer) + bytes(asock.inbuf)
+            pending = 'pending' if count_records(buffered, len(buffered)) else 'nothing-pending'   # a whole record is waiting
+            usage = False
+            if k in ('keyupdate', 'pha', 'heartbeat'):
+                from tlslite.constants import KeyUpdateMessageType
+                if k == 'keyupdate':
+                    g = A.send_keyupdate_request(KeyUpdateMessageType.update_not_requested)
+                    events.append('UKeyUpdate')
+                elif k == 'pha':
+                    okp = bool(side == 'server' and tls13 and A._pha_supported)
+                    g = A.request_post_handshake_auth()
+                    events.append('UPha %s' % ('true' if okp else 'false'))
+                else:
+                    okh = bool(A.heartbeat_supported and A.heartbeat_can_send)
+                    g = A.write_heartbeat(bytearray(b'ping'), 16)
+                    events.append('UHeartbeat %s' % ('true' if okh else 'false'))
+                r = blocking_call(lambda: [None for _ in g] and None) if blocking else run_one(g, asock)
+                if r[0] == 'exc' and isinstance(r[1], (ValueError, tlserr.TLSInternalError, tlserr.TLSIllegalParameterException)):
+                    usage = True          # caller error raised before anything is sent
+            elif k == 'read':
                 mx, mn = op[1], op[2]
                 r = blocking_call(lambda: A.read(mx, mn)) if blocking else run_one(A.readAsync(mx, mn), asock)
                 events.append('URead %s %d' % ('None' if mx is None else '(Some %d)' % mx, mn))
@@ -992,17 +1075,29 @@ def run_data_case(case, blocking=False):
             else:
                 r = blocking_call(A.close) if blocking else run_one(A.closeAsync(), asock)
                 events.append('UClose')
-            lit = op_result_lit(r, k)
+            lit = '(OExc XValue)' if usage else op_result_lit(r, k)
             expected.append(lit)
             outs.append(lit)
             c = classify(r) if r[0] == 'exc' else (r[0],)
             now_res = bool(sess_obj.resumable)
             # ---- the property, statement by statement
-            if r[0] == 'exc':
+            if r[0] == 'exc' and not usage:
                 if c[0] not in loop.DOCUMENTED:
                     viol.append(('undocumented-exception:%s:%s' % (c[1], site), '%s raised %r' % (k, c)))
                 if not A.closed:
-                    viol.append(('not-closed-after-exception:%s:%s' % (k, c[0]), '%s raised %r but the connection is not closed' % (k, c)))
+                    tail = (':' + pending) if k in ('keyupdate', 'pha', 'heartbeat') else ''
+                    viol.append(('not-closed-after-exception:%s:%s%s' % (k, c[0], tail),
+                                 '%s raised %r but the connection is not closed (closed=False, session.resumable=%r; '
+                                 '%s in the receive buffers when it was called)' % (k, c, now_res, pending)))
+            if k == 'read' and not closed_before and cn_arrived and clean_prefix:
+                # the peer ended the stream properly: data, close_notify (whatever happened to the transport afterwards)
+                if r[0] == 'exc':
+                    viol.append(('orderly-close-reported-as-failure:%s:%s' % (c[0], site),
+                                 'the peer sent only application data and then close_notify, yet read raised %r '
+                                 '(closed=%r, session.resumable=%r)' % (c, A.closed, now_res)))
+                elif r[0] == 'ok' and A.closed and was_res and not now_res:
+                    viol.append(('orderly-close-invalidates-session:read:' + site,
+                                 'the peer closed in an orderly way; read returned %r but session.resumable was switched off' % (r[1],)))
             if now_res and not was_res:
                 viol.append(('resumable-switched-on:%s' % k, 'session.resumable went from False to True during %s' % k))
             if k == 'read':
@@ -1040,7 +1135,7 @@ def run_data_case(case, blocking=False):
                     orderly = True
             if k in ('read', 'close') and orderly and not tainted and was_res and not now_res:
                 viol.append(('orderly-close-invalidates-session:%s' % k, 'session.resumable switched off by %s after an orderly close' % k))
-            if r[0] == 'exc' and not (k == 'write' and closed_before):
+            if r[0] == 'exc' and not (k == 'write' and closed_before) and not usage:
                 tainted = True
             was_res = now_res
         else:
@@ -1156,6 +1251,42 @@ def close_wait_scripts():
     return out
 
 
+SEND_ERRNOS = [errno.EPIPE, errno.ECONNRESET, errno.ECONNABORTED, errno.ETIMEDOUT, errno.ENOTCONN, errno.ESHUTDOWN, errno.EBADF]
+
+
+def post_handshake_scripts(quick):
+    """a transport failure at every send of every public post-handshake operation (KeyUpdate,
+    post-handshake auth request, heartbeat request, write, close) and of every answer given from
+    inside read (close_notify reply, warning reply, KeyUpdate answer, heartbeat answer, PHA answer),
+    with nothing / data / a fatal alert / close_notify / a junk record waiting, for every errno"""
+    out = []
+    errs = SEND_ERRNOS[:3] if quick else SEND_ERRNOS
+    waiting = [[], [('pdata', b'zz')], [('palert', 2, 80)], [('palert', 1, 0)], [('pjunk',)], [('pdata', b'y'), ('palert', 2, 40)]]
+    for op in ('keyupdate', 'pha', 'heartbeat', 'write', 'close'):
+        opx = (op, b'payload') if op == 'write' else (op,)
+        for w in waiting:
+            for e in errs:
+                for k in (0, 1):
+                    for rxend in ((), (('eof',),), (('reset', e),)):
+                        if quick and (k == 1 or (rxend and rxend[0][0] == 'reset')) and e != errno.ECONNRESET:
+                            continue
+                        out.append(list(w) + [('sendbreak', k, e)] + list(rxend) + [opx, opx, ('read', None, 1), ('write', b'after')])
+            out.append(list(w) + [opx, ('read', None, 1), opx, ('close',), opx])      # no fault: the calls themselves
+    # answers given from inside read
+    for trig in ([('palert', 1, 0)], [('pdata', b'last words'), ('palert', 1, 0)], [('palert', 2, 0)], [('palert', 1, 90)],
+                 [('pku', True)], [('pku', False), ('pdata', b'k')], [('phb',)], [('phb',), ('pdata', b'h')], [('ppha',)],
+                 [('pku', True), ('pku', True), ('pdata', b'kk'), ('palert', 1, 0)]):
+        for e in SEND_ERRNOS:
+            for k in (0, 1):
+                for rxend in ((), (('eof',),)):
+                    if quick and k == 1 and e not in (errno.ECONNRESET, errno.EPIPE):
+                        continue
+                    out.append([('sendbreak', k, e)] + list(trig) + list(rxend) +
+                               [('read', None, 1), ('read', None, 1), ('read', None, 1), ('write', b'w')])
+        out.append(list(trig) + [('read', None, 1), ('read', None, 1), ('keyupdate',), ('write', b'w'), ('close',)])
+    return out
+
+
 def random_script(rng):
     n = rng.randrange(3, 12)
     s = []
@@ -1176,13 +1307,15 @@ def random_script(rng):
         elif x < 0.54:
             s.append(('trunc', b'TTTTTTTT', rng.randrange(0, 12)))
         elif x < 0.60:
-            s.append(('sendbreak', rng.randrange(0, 4), rng.choice([errno.EPIPE, errno.ECONNRESET])))
+            s.append(('sendbreak', rng.randrange(0, 4), rng.choice(SEND_ERRNOS)))
         elif x < 0.78:
             s.append(('read', rng.choice([None, None, 0, 1, 3, 100]), rng.choice([0, 1, 1, 1, 4, 12])))
         elif x < 0.88:
             s.append(('write', bytes(rng.randrange(256) for _ in range(rng.choice([0, 1, 2, 7, 20])))))
         elif x < 0.94:
             s.append(('close',))
+        elif x < 0.952:
+            s.append(rng.choice([('keyupdate',), ('pha',), ('heartbeat',), ('pku', True), ('pku', False), ('phb',), ('ppha',)]))
         elif x < 0.96:
             s.append(('makefile',))
         elif x < 0.98:
